@@ -57,13 +57,17 @@ structure St where
   /-- the application goroutine that holds the output lock waits for the input lock -/
   outPinned : Bool
   pending : Option Input
+  /-- white space (a keep-alive) precedes whatever comes next: the decoder holds it back until
+  the next `<`; an interrupted read then yields it as a token and `Serve` notices the deadline at
+  the top of its loop instead of through a read error -/
+  kept : Bool
   expired : Bool
   inClosed : Bool
   outClosed : Bool
   wire : List Item
   deriving DecidableEq, Repr
 
-def init : St := ⟨.notStarted, .free, .free, false, none, false, false, false, []⟩
+def init : St := ⟨.notStarted, .free, .free, false, none, false, false, false, false, []⟩
 
 /-- `closeSession` (caller holds the output lock) -/
 def closeSession (s : St) : St :=
@@ -77,7 +81,20 @@ def serveStep (s : St) : Option St :=
   | .wantIn => if s.inLock = .free then some { s with inLock := .serve, spc := .reading } else none
   | .reading =>
     -- `lockReadCloser.Token`: the closed bit, then the decoder
-    if s.expired then some { s with inLock := .free, spc := .errOut .deadline } else
+    if s.expired then
+      -- the read is interrupted.  With a keep-alive held back by the decoder it returns that white
+      -- space: `handleInputStream` returns nil and `Serve` finds the context done at the top of
+      -- its loop (no `sendError`); otherwise the read error goes to `sendError`
+      (if s.kept then some { s with inLock := .free, kept := false, spc := .shutIn .deadline }
+       else some { s with inLock := .free, spc := .errOut .deadline })
+    else if s.kept then
+      -- the white space comes first, as a token of its own, when the next unit of input starts:
+      -- `handleInputStream` returns nil and `Serve` passes the top of its loop (where it looks at
+      -- the deadline) before it reads that unit
+      (match s.pending with
+       | none => none
+       | some _ => some { s with kept := false, inLock := .free, spc := .top })
+    else
     match s.pending with
     | none => none
     | some (.stanza false) => some { s with pending := none, spc := .handling }
@@ -105,6 +122,8 @@ inductive Act
   | appAcquireOut | appWrite | appCloseSession | appReleaseOut
   | appNest | appNestAcquire
   | deliver (x : Input)
+  /-- the peer sends white space while `Serve` is inside its read -/
+  | keepalive
   | expire
   deriving DecidableEq, Repr
 
@@ -115,13 +134,15 @@ def step (allowNest : Bool) (s : St) : Act → Option St
   | .appReleaseIn => if s.inLock = .app then some { s with inLock := .free } else none
   | .appAcquireOut => if s.outLock = .free then some { s with outLock := .app } else none
   | .appWrite =>
-    if s.outLock = .app && !s.outClosed then some { s with wire := s.wire ++ [.el] } else none
+    -- a write through the held writer / a transmit call: the closed bit is tested under the lock
+    if s.outLock = .app then some (if s.outClosed then s else { s with wire := s.wire ++ [.el] }) else none
   | .appCloseSession => if s.outLock = .app then some (closeSession s) else none
   | .appReleaseOut => if s.outLock = .app && !s.outPinned then some { s with outLock := .free } else none
   | .appNest => if allowNest && s.outLock = .app && !s.outPinned then some { s with outPinned := true } else none
   | .appNestAcquire =>
     if s.outPinned && s.inLock = .free then some { s with inLock := .app, outPinned := false } else none
   | .deliver x => if s.pending = none then some { s with pending := some x } else none
+  | .keepalive => if s.spc = .reading then some { s with kept := true } else none
   | .expire => some { s with expired := true }
 
 def run (allowNest : Bool) (s : St) : List Act → St
@@ -171,6 +192,10 @@ def rank : SPc → Nat
   | .replying => 11
   | .wantOut => 12
   | .notStarted => 13
+
+/-- `rank`, counting the detour over the top of the loop that white space held back by the
+decoder costs -/
+def rankS (s : St) : Nat := rank s.spc + (if s.kept then 3 else 0)
 
 structure Inv (s : St) : Prop where
   inServe : s.inLock = .serve ↔ holdsIn s.spc = true
